@@ -89,6 +89,30 @@ theorem good_addTail {p : Pool} (h : Good Φ p) (t : Tx) (isLocal loc : Bool)
     | exact h2
     | exact h2.frame rfl rfl rfl
 
+theorem good_addRoom {p : Pool} (h : Good Φ p) (hpq : Φ.PQ) (t : Tx) (isLocal loc : Bool)
+    (hp : Φ.φp t.sender t) (hq : Φ.φq t.sender t) :
+    ∀ r ∈ p.addRoom t isLocal loc, Good Φ r.1 := by
+  intro r hr
+  unfold addRoom at hr
+  simp only at hr
+  split at hr
+  · split at hr
+    · simp at hr; subst hr; exact h
+    · split at hr
+      · simp at hr; subst hr; exact h
+      · simp only [List.mem_map] at hr
+        obtain ⟨d, _, hd⟩ := hr
+        cases d with
+        | none => simp at hd; subst hd; exact h
+        | some drop =>
+          simp only at hd
+          subst hd
+          apply good_addTail _ t _ loc hp hq
+          apply foldl_inv (Good Φ)
+          · exact h.frame rfl rfl rfl
+          · intro s x _ hs; exact good_removeTx hs hpq x
+  · simp at hr; subst hr; exact good_addTail h t _ loc hp hq
+
 theorem good_add {p : Pool} (h : Good Φ p) (hpq : Φ.PQ) (t : Tx) (loc : Bool) :
     ∀ r ∈ p.add t loc, Good Φ r.1 := by
   intro r hr
@@ -104,22 +128,8 @@ theorem good_add {p : Pool} (h : Good Φ p) (hpq : Φ.PQ) (t : Tx) (loc : Bool) 
       have hq : Φ.φq t.sender t := Φ.val t (by rw [← hc]; exact v1)
       have hp : Φ.φp t.sender t := Φ.qp _ _ hq (by rw [← hc]; exact v1) (by rw [← hc]; exact v2) (by rw [← hc]; exact v3)
       split at hr
-      · split at hr
-        · simp at hr; subst hr; exact h
-        · split at hr
-          · simp at hr; subst hr; exact h
-          · simp only [List.mem_map] at hr
-            obtain ⟨d, _, hd⟩ := hr
-            cases d with
-            | none => simp at hd; subst hd; exact h
-            | some drop =>
-              simp only at hd
-              subst hd
-              apply good_addTail _ t _ loc hp hq
-              apply foldl_inv (Good Φ)
-              · exact h.frame rfl rfl rfl
-              · intro s x _ hs; exact good_removeTx hs hpq x
-      · simp at hr; subst hr; exact good_addTail h t _ loc hp hq
+      · simp at hr; subst hr; exact h
+      · exact good_addRoom h hpq t _ loc hp hq r hr
 
 theorem allRemoveL_queue (p : Pool) (ts : List Tx) : (p.allRemoveL ts).queue = p.queue :=
   foldl_inv (fun s : Pool => s.queue = p.queue) allRemove ts p rfl (fun _ _ _ hs => hs)
